@@ -250,6 +250,9 @@ def run(chk):
         raise tlc.TlcError("NetStandoff (stream mode) no longer exhibits the stand-off counterexample: the design account of "
                            "the open C05 finding is out of date\n" + rs["stdout"][-1500:])
     chk.extra["standoff_counterexample_from_design"] = [a.split(" line")[0] for a, _ in rs.get("cex", [])]
+    rdw = tlc.mc("NetDispatchWalk", "NetDispatchWalk" if chk.tier == "quick" else "NetDispatchWalk_all", timeout=3000)
+    chk.add_tlc(rdw, "NetDispatch composed hop by hop over every ordered pair of nodes: queued exactly once at the destination, "
+                     "unchanged, no bystander, one NETWORK_ACK iff owed, <= 16 transmissions")
     chunks = build(chk)
     with ProcessPoolExecutor(16) as ex:
         traces = list(ex.map(run_chunk, chunks))
